@@ -421,6 +421,7 @@ void mc_fault_mask (int m) { fault_mask = m; }
 void mc_blocks_reset (void) { if (cur >= 0) { F[cur].blocks = 0; F[cur].sleeps = 0; F[cur].blocks_armed = 1; } }
 unsigned mc_blocks (void) { if (cur < 0) return 0; unsigned b = F[cur].blocks; F[cur].blocks = 0; F[cur].sleeps = 0; F[cur].blocks_armed = 0; return b; }
 unsigned mc_sleeps_of (int i) { return F[i].sleeps; }
+void *mc_tls_waiter_of (int i) { return F[i].tls_waiter; }
 unsigned mc_blocks_of (int i) { return F[i].blocks; }
 int mc_fiber_done (int i) { return F[i].st == ST_DONE; }
 int mc_fiber_asleep (int i) { return F[i].st == ST_FUTEX || F[i].st == ST_SEMP; }
